@@ -68,21 +68,21 @@ var Syntax = map[string]RangeSyntax{
 	"alpm":       {Ops: eq5, And: []string{" ", " and ", "  "}},
 	"apache":     {Ops: eq5, And: []string{" ", "  "}},
 	"cargo":      {Ops: eq6, And: []string{",", ", ", " , "}, SpOp: true},
-	"composer":   {Ops: []string{"=", "==", "!=", "<>", "<", "<=", ">", ">="}, And: []string{" ", ",", ", "}, Or: []string{"||", " || "}},
-	"conan":      {Ops: eq6, And: []string{",", " ", ", "}, Or: []string{"||", " || "}, SpOp: true},
+	"composer":   {Ops: []string{"=", "==", "!=", "<>", "<", "<=", ">", ">="}, And: []string{" ", ",", ", ", "  ", " ,  "}, Or: []string{"||", " || ", "  ||  "}},
+	"conan":      {Ops: eq6, And: []string{",", " ", ", ", "  "}, Or: []string{"||", " || ", "  ||  "}, SpOp: true},
 	"cran":       {Ops: eq6, And: []string{",", ", "}, SpOp: true},
 	"debian":     {Ops: []string{"=", "!=", "<", "<=", ">", ">=", "<<", ">>"}, And: []string{",", ", "}, SpOp: true},
 	"gem":        {Ops: eq6, And: []string{",", ", "}, SpOp: true},
-	"gentoo":     {Ops: eq6, And: []string{" ", ",", ", "}},
+	"gentoo":     {Ops: eq6, And: []string{" ", ",", ", ", "  "}},
 	"github":     {Ops: eq5, And: []string{" ", "  "}},
 	"golang":     {Ops: eq6, And: []string{" ", "  "}},
 	"hex":        {Ops: eq5, And: []string{" ", " and ", "  "}},
 	"mattermost": {Ops: eq5, And: []string{" ", "  "}},
-	"npm":        {Ops: eq5, And: []string{" ", "  "}, Or: []string{"||", " || "}},
+	"npm":        {Ops: eq5, And: []string{" ", "  "}, Or: []string{"||", " || ", "  ||  "}},
 	"nuget":      {Ops: eq6, And: []string{",", ", "}, SpOp: true},
 	"pypi":       {Ops: []string{"==", "!=", "<", "<=", ">", ">="}, And: []string{",", ", "}, SpOp: true},
-	"rpm":        {Ops: eq6, And: []string{",", " ", ", "}},
-	"semver":     {Ops: eq6, And: []string{",", " ", ", "}},
+	"rpm":        {Ops: eq6, And: []string{",", " ", ", ", "  "}},
+	"semver":     {Ops: eq6, And: []string{",", " ", ", ", "  "}},
 }
 
 // BoundInScope implements C02's scope rule: a bound whose text begins with a
